@@ -47,6 +47,8 @@ func handPickedNamed() map[string]Case {
 	return map[string]Case{
 		"F-20f-enum-constant-collision": {Schema: clash, Docs: []Doc{{Defs: []Def{q(f("a", f("c")))}}}, Seed: 7, Worlds: 4},
 		"F-20g-sel-type-name-collision": sn,
+		"subscription-root-without-mutation-root": subscriptionOnly(false),
+		"subscription-root-with-mutation-root":    subscriptionOnly(true),
 		"interface-only-self-referential-object": interfaceOnly(),
 		"F-20h-enum-named-int":    reservedEnum("int"),
 		"F-20h-enum-named-type":   reservedEnum("type"),
@@ -137,4 +139,22 @@ func interfaceOnly() Case {
 	q2 := Def{Kind: "query", Name: "Q2", Sels: []Sel{f("nodes", f("__typename"), on("Named", f("name")), spread("Dir"))}}
 	dir := Def{Kind: "frag", Name: "Dir", Cond: "File", Sels: []Sel{f("dir", f("__typename"), on("Node", f("id")))}}
 	return Case{Schema: s, Docs: []Doc{{Defs: []Def{q1}}, {Defs: []Def{q2, dir}}}, Seed: 11, Worlds: 4}
+}
+
+// subscriptionOnly: a schema with a subscription root and (optionally) no mutation root — in the
+// introspection result `mutationType` is then null while `subscriptionType` is not — and named
+// subscription operations (one root field each), next to a query.
+func subscriptionOnly(withMutation bool) Case {
+	s := fixedSchema()
+	s.Types = append(s.Types, TypeSpec{Kind: "object", Name: "Subscription", Fields: []FieldSpec{
+		{Name: "changed", Type: named("Thing")}, {Name: "tick", Type: nonNull(named("Int"))}}})
+	s.Subscription = "Subscription"
+	if withMutation {
+		s.Types = append(s.Types, TypeSpec{Kind: "object", Name: "Mutation", Fields: []FieldSpec{{Name: "count", Type: named("Int")}}})
+		s.Mutation = "Mutation"
+	}
+	s1 := Def{Kind: "subscription", Name: "S1", Sels: []Sel{f("changed", f("__typename"), on("Alpha", f("x"), f("c")), on("Beta", f("y")))}}
+	s2 := Def{Kind: "subscription", Name: "S2", Sels: []Sel{on("Subscription", fa("beat", "tick"))}}
+	q := Def{Kind: "query", Name: "Q1", Sels: []Sel{f("s")}}
+	return Case{Schema: s, Docs: []Doc{{Defs: []Def{s1}}, {Defs: []Def{s2}}, {Defs: []Def{q}}}, Seed: 14, Worlds: 4}
 }
